@@ -39,6 +39,9 @@ TRUSTED_BASE = list(W.COMMON_TRUSTED) + [
     "mon_late_commit, mon_silent, mon_leave, mon_leave_strict — the definitions the theorems are about, extracted with ExtrOcamlBasic only; deterministic "
     "scenarios are compared result by result with a run of the extracted step function; hangs are detected by per-call watchdogs (8 s and more), goroutine "
     "(stacks created by kafka-go) and client-connection census after the last Close; ocaml/c09r_driver.ml (~230 lines) and the harness (~2700 lines of Go) are trusted",
+    "late-answer family of cmd/c09r: in mode w (real kafka.Writer on a real Transport against the package's own small wire fake wfake.go: ApiVersions, Metadata, "
+    "Produce) the client-side connection wrapper honours read deadlines 6x WriteTimeout late (tag deadline-slack), so that the late answer is actually read by "
+    "(*conn).run instead of racing the connection deadline that equals the produce context's deadline; mode t contexts carry no deadline and need no slack",
     "a request counts as 'after Close returned' by its position in the timeline: the journal entry is made when the fake has decoded the request, the Close "
     "return when Reader.Close returned in the harness goroutine",
 ]
@@ -131,8 +134,7 @@ def reader_failures_of_case(c):
                         out.append(("property", "after a round trip was abandoned through its context and the broker answered (or closed the connection) LATER, "
                                                 "Transport connection goroutines / connections are still there after Writer.Close / Transport.CloseIdleConnections and the "
                                                 "grace period" + (": a goroutine is parked in async.resolve / async.reject ((*conn).run cannot deliver the result: "
-                                                "the promise channel of sendRequest must have capacity 1, skeleton assumption T6)" if promise else "")
-                                                + ": " + part + " " + ",".join(t for t in tags if t.startswith("leak=")), None))
+                                                "the promise channel of sendRequest must have capacity 1, skeleton assumption T6)" if promise else ""), None))
                         continue
                     # a broker that stays SILENT after the cancel: kafka.Transport reads without a deadline; outside the text of C09
                     # (which speaks of Writer, Reader, ConsumerGroup); reported as an observation
